@@ -163,8 +163,8 @@ def known_c11(impl_kind, w, q, t, out):
         return 'F2a-lemire-w=u64max-truncated'
     if impl_kind == 'lemire' and t and w == 0:
         return 'F2b-lemire-w=0-truncated'
-    if impl_kind == 'bellerophon' and t and w == 0:
-        return 'F2c-bellerophon-w=0-truncated'
+    if impl_kind == 'bellerophon' and t and w < (1 << 40):
+        return 'F2c-bellerophon-small-w-truncated'
     return None
 
 
